@@ -454,6 +454,51 @@ def package_cases(draw, avoid_inherited_value: bool = False):
     return {"kind": "dcpkg", "dc": dc, "ranks": ranks, "perm": perm, "rel": draw(st.integers(0, 7))}
 
 
+@st.composite
+def two_package_cases(draw, avoid_inherited_value: bool = False):
+    """A "dc" case of 2-4 classes split over TWO top-level modules A and B (B imports its bases from A; a class of A never
+    has a base in B), to be loaded one after the other into one GriffeLoader, the base package first. Fields of the classes
+    that stay in A are turned into InitVar pseudo-fields half of the time (Griffe removes those members after processing A)."""
+    dc = draw(cases(avoid_inherited_value=avoid_inherited_value).filter(lambda c: len(c["classes"]) >= 2))
+    side: list[int] = []
+    for i, cls in enumerate(dc["classes"]):
+        lo = max((side[b] for b in cls["bases"]), default=0)
+        side.append(max(lo, draw(_i01)) if i else 0)
+    if 1 not in side:
+        side[-1] = 1
+    changed = False
+    for i, cls in enumerate(dc["classes"]):
+        if side[i] == 0 and cls["deco"] is not None:
+            for it in cls["body"]:
+                if it["t"] == "f" and draw(_i01):
+                    v = it["v"]
+                    if v is not None and "p" not in v and v["d"] == "f":
+                        v["d"] = "v"
+                    it["t"] = "iv"
+                    it.pop("ty", None)
+                    changed = True
+    if changed:
+        dc = normalize(dc, avoid_inherited_value)
+    return {"kind": "dc2pkg", "dc": dc, "side": side}
+
+
+def render_two_packages(case: dict, name_a: str, name_b: str) -> dict[str, str]:
+    dc = case["dc"]
+    out = {}
+    for side, name in ((0, name_a), (1, name_b)):
+        idxs = [i for i, s_ in enumerate(case["side"]) if s_ == side]
+        lines = render_header(dc)
+        if side == 1:
+            needed = sorted({f"C{b}" for i in idxs for b in dc["classes"][i]["bases"] if case["side"][b] == 0})
+            if needed:
+                lines.append(f"from {name_a} import {', '.join(needed)}")
+        lines.append("")
+        for i in idxs:
+            lines += render_class(dc, i)
+        out[name] = "\n".join(lines)
+    return out
+
+
 def package_module_of(case: dict, i: int) -> str:
     return PKG_MODULES[case["perm"][case["ranks"][i]]]
 
